@@ -797,3 +797,103 @@ def anchor_functions(repo, prop_id):
             if p["id"] == prop_id:
                 files = p.get("anchors", {}).get("files", [])
     return [f for f in repo.functions.values() if f.parent is None and f.module.path in files]
+
+
+def bool_mask_dtype(ctx, fns, clause, rule="TRAP-maskdtype"):
+    """TRAP-maskdtype: a boolean mask built from a Python list must state its dtype: for an EMPTY list NumPy infers
+    float64, and a float64 'mask' fails in ~mask, a | b and x[mask]."""
+    ctx.rule(rule, "X.fast([<boolean expression> for ...]) / np.array([...]) building a mask passes bool explicitly (an empty list is float64)")
+    n = 0
+
+    def boolish(e):
+        if isinstance(e, ast.Compare) or (isinstance(e, ast.UnaryOp) and isinstance(e.op, ast.Not)) or isinstance(e, ast.BoolOp):
+            return True
+        if isinstance(e, ast.Call) and isinstance(e.func, ast.Name) and e.func.id in ("isinstance", "callable", "bool", "hasattr"):
+            return True
+        return False
+    for fn in fns:
+        for f, c in calls_in(fn):
+            tail = c.func.attr if isinstance(c.func, ast.Attribute) else (c.func.id if isinstance(c.func, ast.Name) else "")
+            if tail not in ("fast", "array", "asarray", "Vector", "DataFrameColumn") or not c.args:
+                continue
+            a0 = c.args[0]
+            if not (isinstance(a0, ast.ListComp) and boolish(a0.elt)):
+                continue
+            n += 1
+            has_dtype = len(c.args) > 1 or any(k.arg == "dtype" for k in c.keywords)
+            ctx.ob(rule, f, norm(c)[:80], c, has_dtype,
+                   "the mask's dtype is stated" if has_dtype else
+                   f"{norm(c)[:60]} leaves the dtype to NumPy: for a zero-length input the result is float64, not bool, and the callers' "
+                   f"`~mask`, `a | mask` and `x[mask]` raise TypeError -- empty vectors / frames / groups stop working", clause=clause)
+    ctx.note(f"{rule}: {n} masks built from list comprehensions examined")
+
+
+TOTAL_FUNCTIONS = {
+    # functions that reject nothing themselves on the pinned tree and whose statement quantifies over every argument
+    "dataiter.vector.Vector.replace_na": "replace_na replaces exactly the missing positions, for any replacement value",
+    "dataiter.vector.Vector.drop_na": "drop_na removes exactly the missing positions",
+    "dataiter.vector.Vector.is_na": "is_na flags exactly the missing positions",
+    "dataiter.vector.Vector.dt": "the Vector .dt proxy returns the same results as the module functions (from_string takes strings)",
+    "dataiter.vector.Vector.re": "the Vector .re proxy returns the same results as the module functions",
+    "dataiter.vector.Vector.str": "the Vector .str proxy returns the same results as the module functions",
+    "dataiter.data_frame.DataFrame._get_join_indices": "all joins succeed when either side is empty or nothing matches",
+    "dataiter.data_frame.DataFrame.drop_na": "drop_na drops exactly the rows with a missing value in a named column",
+    "dataiter.list_of_dicts.ListOfDicts.group_by": "aggregate yields one item per distinct key combination, for lists of length 0..N",
+}
+
+
+def total_functions(ctx, names, rule="TOTAL"):
+    """TOTAL: a short, hand-confirmed table of functions that contain no `raise` on the pinned tree and that the statement
+    quantifies over all arguments of: a raise statement in one of them narrows the domain the property promises."""
+    ctx.rule(rule, "functions of the hand-confirmed table TOTAL_FUNCTIONS contain no raise statement")
+    for q in names:
+        fn = ctx.repo.functions.get(q) or ctx.repo.functions.get(q + "@getter")
+        if fn is None:
+            continue
+        rs = [x for f in _all_fns([fn]) for x in body_nodes(f.node) if isinstance(x, ast.Raise)]
+        from ..facts import facts_at
+        cond = [t for k, t in facts_at(fn, rs[0]) if not t.startswith("iter:")][:2] if rs else []
+        ctx.ob(rule, fn, f"{fn.name} raises nothing itself", rs[0] if rs else fn.node, not rs,
+               "no raise statement" if not rs else
+               f"{fn.qualname} now raises {norm(rs[0].exc)[:50] if rs[0].exc is not None else ''} (under {cond}): inputs the statement covers "
+               f"are rejected where they used to be processed", clause=TOTAL_FUNCTIONS[q])
+
+
+def raises_inside_domain(ctx, fn, param, grid, what, clause, rule="GRD-domain", lengths=()):
+    """GRD-domain: a `raise` guarded by a test on a numeric parameter must not fire for values the statement's domain
+    contains.  ``grid``: representative values of the parameter (boundaries included); ``lengths``: texts standing for a
+    sequence length, enumerated 0..3.  Decided by interpreting the guard (sa/intpred.py)."""
+    from ..intpred import holds_somewhere
+    from ..facts import facts_at
+    ctx.rule(rule, "an explicit validation of a numeric argument rejects no value of the documented domain")
+    n = 0
+    for f in _all_fns([fn]):
+        for rz in [x for x in body_nodes(f.node) if isinstance(x, ast.Raise)]:
+            # the innermost enclosing `if` whose body contains the raise, with polarity
+            par, child = f.module.parent.get(rz), rz
+            while par is not None and not isinstance(par, ast.If):
+                child, par = par, f.module.parent.get(par)
+            if par is None or not any(isinstance(m, ast.Name) and m.id == param for m in ast.walk(par.test)):
+                continue
+            test = par.test if child in par.body else ast.UnaryOp(op=ast.Not(), operand=par.test)
+            n += 1
+            envs = []
+            for v in grid:
+                if lengths:
+                    for ln in range(0, 4):
+                        e = {param: v(ln) if callable(v) else v}
+                        for lt in lengths:
+                            e[lt] = ln
+                        envs.append(e)
+                else:
+                    envs.append({param: v})
+            hit = holds_somewhere(test, envs)
+            if isinstance(hit, tuple):
+                ctx.note(f"{rule}: {f.qualname}: guard {norm(par.test)} not decidable here ({hit[1]})")
+                continue
+            ctx.ob(rule, f, f"raise under {norm(par.test)[:60]}", rz, hit is None,
+                   f"the validation rejects no {what}" if hit is None else
+                   f"the validation `{norm(par.test)[:60]}` also fires for {param} = {hit[param]}"
+                   + (f" with length {[hit[l] for l in lengths][0]}" if lengths else "") + f", which is {what}: the call raises instead of "
+                   f"computing the documented result", clause=clause)
+    ctx.note(f"{rule}: {n} validation(s) of {param} in {fn.qualname} examined")
